@@ -115,7 +115,8 @@ pub fn plan_key(cl: &CommandLine) -> String {
         .join(" | ")
 }
 
-/// Called first thing in `core::run_pipeline`. `None` = no script installed.
+/// Called in `core::run_pipeline` once the calculator / function / empty-line cases are
+/// decided, right before any pipe or process is created. `None` = no script installed.
 pub fn scripted_run_pipeline(_sh: &mut Shell, cl: &CommandLine, _capture: bool) -> Option<(bool, CommandResult)> {
     let key = plan_key(cl);
     let out = PIPE_SCRIPT.with(|s| s.borrow().as_ref().map(|m| m.get(&key).cloned().unwrap_or_default()))?;
@@ -168,4 +169,11 @@ pub fn from_line(line: &str, sh: &mut Shell) -> Result<VPlan, String> {
         envs.sort();
         VPlan { commands: cl.commands.iter().map(dump_command).collect(), envs, background: cl.background }
     })
+}
+
+/// `core::run_pipeline(sh, cl, tty=false, capture=true)`, for a line already planned
+pub fn run_pipeline_captured(sh: &mut Shell, line: &str) -> Result<CommandResult, String> {
+    let cl = CommandLine::from_line(line, sh)?;
+    let (_t, cr) = crate::core::run_pipeline(sh, &cl, false, true, false);
+    Ok(cr)
 }
